@@ -524,7 +524,7 @@ def _guard_var_from_own_scope(fnode, guard) -> bool:
 
 @rule(
     "QMETA-FLOW",
-    ["C11", "C01"],
+    ["C11", "C01", "C06"],
     "quadrature_degree / quadrature_rule of the integral metadata flow (with parameter binding checked at "
     "each call) through _group_integrands_by_quadrature_rule, create_quadrature_points_and_weights and "
     "create_quadrature into basix.make_quadrature; the estimated degree is used only when no non-negative "
@@ -802,7 +802,7 @@ def opt_gate(repo, res):
         ("ffcx.ir.representation", "_compute_integral_ir", r"ir\['part'\] == TensorPart\.diagonal", r"form_data\.rank == 2"),
         ("ffcx.ir.representation", "_compute_form_ir", r"tensor_part == TensorPart\.diagonal", r"len\(args\) == 2"),
         (IG, "IntegralGenerator.generate_block_parts", r"self\.ir\.part == TensorPart\.diagonal", r"block_rank == 2"),
-        ("ffcx.ir.integral", "_compute_integral_ir", r"TensorPart\.from_str\(p\['part'\]\) == TensorPart\.diagonal", r"len\(blockmap\) == 2"),
+        ("ffcx.ir.integral", "_compute_integral_ir", r"TensorPart\.from_str\(p\['part'\]\) == TensorPart\.diagonal", r"len\((blockmap|ma_indices|trs)\) == 2"),
     ]
     # every other test of the option anywhere in the package must be triaged here (exempt = reason)
     exempt = {
@@ -900,7 +900,13 @@ def opt_gate(repo, res):
                 and {ast.unparse(c.left), ast.unparse(c.comparators[0])} == {f"{bm}[0]", f"{bm}[1]"}]
         if "diagonal" in t and cmp_ and any(isinstance(b, ast.Continue) for b in st.body) and isinstance(st.test, ast.BoolOp) and isinstance(st.test.op, ast.And):
             ok = True
-    if not ok:
+    other_skip = [st for i, st in enumerate(loop.body) if isinstance(st, ast.If) and "diagonal" in ast.unparse(st.test)
+                  and any(isinstance(x, ast.Continue) for x in ast.walk(st))]
+    if not ok and other_skip:
+        res.fail(key, f"part=\"diagonal\": blocks are skipped under `{ast.unparse(other_skip[0].test)[:90]}` ... rather than by inequality of the two arguments' dof maps. "
+                 "Whether a block has diagonal entries is decided by its dofs: different components living on the same dofs (RT, BDM, N1curl) do contribute to "
+                 "A[i,i] and would be dropped; equal components with different dof ranges would be kept", im.line(other_skip[0]))
+    elif not ok:
         res.fail(key, "part=\"diagonal\": every block of the argument factorisation is accumulated into the rank-1 tensor with one shared dof index, "
                  "including blocks whose row and column dofs differ (other component or sub-element, or the two sides of an interior facet): "
                  "jump(u)*jump(v)*dS and inner(sym(grad(u)), sym(grad(v)))*dx on mixed(P2^2, P1) do not give diag(A)", im.line(loop))
